@@ -155,7 +155,31 @@ func TestProp_Routing(t *testing.T) {
 		eof := map[int]bool{}
 		var emu sync.Mutex
 		nameAlphabet := append([]string{"h2", "__AUTH__", "__UNAUTH__", "zeta"}, specific...)
+		// the consumer of one specific sub-listener may close it while everything else
+		// goes on; clients offering OTHER registered names are routed as before (what
+		// happens to clients offering the closed name is not specified: not judged)
+		consumerClosed := map[string]bool{}
+		closeAt := -1
+		if rapid.IntRange(0, 2).Draw(t, "consumerClosesOneSubListener") == 0 {
+			closeAt = rapid.IntRange(1, n-1).Draw(t, "clientsBeforeConsumerClose")
+		}
 		for i := 0; i < n; i++ {
+			if i == closeAt {
+				var cand []string
+				for _, name := range regNames {
+					if name != nodenet.UnauthenticatedNextProto && name != nodenet.AuthenticatedNonSpecificNextProto && !consumerClosed[name] {
+						cand = append(cand, name)
+					}
+				}
+				if len(cand) > 0 {
+					cwg.Wait()
+					time.Sleep(20 * time.Millisecond)
+					name := rapid.SampledFrom(cand).Draw(t, "closedByConsumer")
+					_ = subs[name].Close()
+					consumerClosed[name] = true
+					interesting = true
+				}
+			}
 			if i == firstWave {
 				// let the first wave finish, then register the late sub-listeners
 				cwg.Wait()
@@ -178,12 +202,16 @@ func TestProp_Routing(t *testing.T) {
 			switch cs.Kind {
 			case "authenticated":
 				var hits []string
+				offersClosed := false
 				for _, e := range cs.Extras {
 					if _, ok := registered[e]; ok {
 						hits = append(hits, e)
+						offersClosed = offersClosed || consumerClosed[e]
 					}
 				}
 				switch {
+				case offersClosed:
+					cs.Want = "*"
 				case len(hits) > 0:
 					sort.Strings(hits)
 					cs.Want = strings.Join(uniq(hits), "|")
@@ -349,7 +377,7 @@ func TestProp_Routing(t *testing.T) {
 			if cs.Kind == "authenticated" && !strings.HasPrefix(cs.Got, "dial-error") {
 				ok := false
 				for _, wnt := range strings.Split(cs.Want, "|") {
-					ok = ok || wnt == where
+					ok = ok || wnt == where || wnt == "*"
 				}
 				if !ok {
 					vkit.Violate(t, prop, "C17/authenticated-misrouted", fmt.Sprintf("authenticated client offering %v: delivered to %q, the model allows %q", cs.Extras, where, cs.Want), desc)
